@@ -324,7 +324,7 @@ func catb(parts ...[]byte) []byte {
 }
 
 // flow-control alphabet
-var flowSyms = [][]byte{{0x00}, {0x51}, {0x52}, {0x63}, {0x64}, {0x67}, {0x68}, {0x6a}, {0x61}, {0x65}, {0x66}, {0x75}, {0x76}, {0x8d}, {0xba}, {0x69}}
+var flowSyms = [][]byte{{0x00}, {0x51}, {0x52}, {0x63}, {0x64}, {0x67}, {0x68}, {0x6a}, {0x61}, {0x65}, {0x66}, {0x75}, {0x76}, {0x8d}, {0xba}, {0x69}, {0x6b}, {0x6c}, {0x6b}, {0x6c}}
 
 // Flow: programs over the flow-control alphabet only (IF/NOTIF/ELSE/ENDIF/RETURN/VERIF/VERNOTIF,
 // small pushes, a few harmless and a few illegal opcodes), split between unlocking and locking script
@@ -436,4 +436,23 @@ func rep2(pat []byte, n int) []byte {
 		out = append(out, pat...)
 	}
 	return out
+}
+
+// ScriptBoundary: what one script may leave behind for the next. Each script is evaluated on the shared data
+// stack with its own alt stack, conditional state and opcode count, whether it ends normally or with a
+// top-level OP_RETURN (after Genesis); a zero-length script is skipped either way.
+func ScriptBoundary(emit func(*Program)) {
+	ends := [][]byte{{}, {0x6a}, {0x6a, 0x01}, {0x6a, 0x6c}}
+	firsts := [][]byte{{0x51, 0x6b}, {0x51, 0x52, 0x6b}, {0x51, 0x6b, 0x52}, {0x51, 0x76, 0x6b}, {0x51}, {0x00, 0x6b, 0x51}, {0x51, 0x6b, 0x52, 0x6b}}
+	seconds := [][]byte{{0x6c}, {}, {0x51}, {0x6c, 0x6c}, {0x74}, {0x6c, 0x51}, {0x51, 0x6b, 0x6c}, {0x6a}, {0x6a, 0x6c}, {0x6b}}
+	for _, f := range firsts {
+		for _, e := range ends {
+			for _, sec := range seconds {
+				for _, fl := range []uint32{FGenesis, 0, FGenesis | FCleanStack | FBip16, FGenesis | FSigPushOnly} {
+					p := &Program{Unlock: append(append([]byte{}, f...), e...), Lock: append([]byte{}, sec...), Flags: fl, Kind: "script-boundary"}
+					emit(p.Fix())
+				}
+			}
+		}
+	}
 }
